@@ -1,0 +1,17 @@
+//go:build verif
+
+package mpx
+
+import "time"
+
+// VerifReconnectTimeout exposes the reconnect back-off function to the verification harness.
+func VerifReconnectTimeout(attempt int) time.Duration { return reconnectTimeout(attempt) }
+
+// VerifClientConns returns the number of connections a client currently holds and its maximum.
+func VerifClientConns(c Client) (live int, max int) {
+	cl, ok := c.(*client)
+	if !ok {
+		return -1, -1
+	}
+	return cl.conns.Load().len(), cl.options.ClientMaxConns
+}
